@@ -168,6 +168,8 @@ def c_action(a):
         return f"ACancel {C.cnat(a[1])}"
     if k == "fail":
         return "AFail"
+    if k == "extstop":      # stop() by the controlling thread while this handler runs: same effect as a stop() call here
+        return "ACmd CStop"
     if k == "cmd":
         return f"ACmd {c_cmd(a[1])}"
     if k == "obs":
